@@ -383,17 +383,43 @@ func init() {
 			isTM := func(t types.Type) bool {
 				return t != nil && types.TypeString(t, nil) == "*golang.org/x/tools/go/types/typeutil.Map"
 			}
-			fresh := func(e ast.Expr) bool {
+			var freshIn func(f *FuncInfo, e ast.Expr, depth int) bool
+			freshIn = func(f *FuncInfo, e ast.Expr, depth int) bool {
 				e = ast.Unparen(e)
-				if nw := fi.isBuiltin(e, "new"); nw != nil {
+				if nw := f.isBuiltin(e, "new"); nw != nil {
 					return true
 				}
 				if u, ok := e.(*ast.UnaryExpr); ok && u.Op == token.AND {
 					_, isLit := u.X.(*ast.CompositeLit)
 					return isLit
 				}
+				// a local bound only to allocations
+				if v := f.varOf(e); v != nil && !f.isParam(v) && len(f.defs[v]) > 0 {
+					for _, d := range f.defs[v] {
+						if d.rhs == nil || d.idx > 0 || !freshIn(f, d.rhs, depth) {
+							return false
+						}
+					}
+					return true
+				}
+				// a constructor of the module: every return is an allocation
+				if cl, ok := e.(*ast.CallExpr); ok && depth < 2 {
+					if h := c.FnOf(f.callee(cl)); h != nil && h.Decl.Body != nil {
+						rets := h.returnsOf()
+						if len(rets) == 0 {
+							return false
+						}
+						for _, rt := range rets {
+							if len(rt.Results) != 1 || !freshIn(h, rt.Results[0], depth+1) {
+								return false
+							}
+						}
+						return true
+					}
+				}
 				return false
 			}
+			fresh := func(e ast.Expr) bool { return freshIn(fi, e, 0) }
 			// every local of map type: all definitions allocate
 			locals := 0
 			seen := map[*types.Var]bool{}
